@@ -45,6 +45,16 @@ Definition digit_of (c : ascii) : option Z :=
   let n := Z.of_nat (nat_of_ascii c) in
   if andb (48 <=? n)%Z (n <=? 57)%Z then Some (n - 48)%Z else None.
 
+(* str::trim_matches(&[chars]): the characters of the set removed from both ends *)
+Definition trim_chars (cs : list ascii) (l : list ascii) : list ascii :=
+  let p := fun c => existsb (Ascii.eqb c) cs in
+  rev (drop_while p (rev (drop_while p l))).
+
+(* the code of a character, and the value of a digit character as the source converts it
+   (c.to_string().parse::<u64>()? as f64 in the '0'..='9' arm) *)
+Definition char_code (c : ascii) : Z := Z.of_nat (nat_of_ascii c).
+Definition digit_value_ (NN : Num) (c : ascii) : carrier NN := nofZ (char_code c - 48).
+
 Section Parse.
   Variable NN : Num.
   Notation T := (carrier NN).
